@@ -11,7 +11,7 @@ import sys
 import threading
 import time
 
-V = '/verif'
+V = os.path.dirname(os.path.dirname(os.path.abspath(__file__)))      # the directory this framework lives in (normally /verif)
 SPEC = V + '/spec'
 SEQ_MODULES = ['RxRef.tla', 'RxProps.tla', 'RxStim.tla', 'RxSeqMC.tla', 'RxSeqTrace.tla']
 NPROC = int(os.environ.get('VERIF_JOBS', '8'))
